@@ -14,6 +14,9 @@ RULE = ('drives the real extract_epochs coroutine send by send. (1) one request:
         'call; (3) seeded random schedules: up to 7 requests, random chunking, arrival anywhere from long before to beyond the '
         'look-back edge, removals before/at/after completion and of unknown keys, source_complete Event set/cleared per call, '
         'fs in {1000.0, 195312.5}, prestim/poststim in {0, k/fs, (k+0.3)/fs}, epoch_size fixed or per-request duration, '
+        '(3b) off-grid request times t0 = (k+f)/fs, f in {.4,.27,-.35,.1,-.2,..} x off-grid prestim (k+{.6,.3,.85,.15,.45})/fs x '
+        'off-grid poststim and epoch_size, enumerated (non-tie combinations only) and seeded random, judged against '
+        '[round((t0-prestim)*fs), +round((size+poststim+prestim)*fs)), '
         'duplicate (t0,key); 1-D and 2-channel, plain ndarray and PipelineData input. (4) fixed cases for the missed-start branch, '
         'stacking of empty/missed epochs, duplicates, unequal durations. Non-trivial: some epoch spans a chunk boundary, is '
         'captured from the look-back buffer, or a removal names a request of the schedule. Distinct = distinct case dicts.')
@@ -45,11 +48,13 @@ def _times(case):
     fs = case['fs']
 
     def tv(spec):
-        kind, k = spec
+        kind, k = spec[0], spec[1]
         if kind == 'zero':
             return 0
         if kind == 'grid':
             return k / fs
+        if kind == 'frac':
+            return (k + spec[2]) / fs  # off-grid by an arbitrary fraction of a sample
         return (k + 0.3) / fs          # off-grid, not a rounding tie
     return tv(case['pre']), tv(case['post'])
 
@@ -532,11 +537,95 @@ def _random(tier, rng):
                     vals=rng.choice(['idx', 'idx', 'mod']))
 
 
+def _nontie(x):
+    """x (in samples) is safely away from a rounding tie"""
+    return abs((x % 1.0) - 0.5) > 0.08
+
+
+def _lo_n(fs, t0k, pre, post, sizek):
+    """start and length exactly as pipeline.py 816-818 computes them (pre/post specs as in the case dict)"""
+    c = {'fs': fs, 'pre': list(pre), 'post': list(post)}
+    p, q = _times(c)
+    return round((t0k / fs - p) * fs), round((sizek / fs + q + p) * fs)
+
+
+def _offgrid(tier, rng):
+    """request times t0 that are NOT multiples of 1/fs, combined with off-grid prestim/poststim/size: the start
+    must be round((t0 - prestim)*fs) of the difference, not a difference of separately rounded terms, and the
+    length round((size + poststim + prestim)*fs) of the sum."""
+    quick = tier == 'quick'
+    chunks = [4, 4, 4, 4, 4, 4]
+    T0F = [0.4, 0.27, -0.35, 0.1, -0.2]
+    PRE = [(0, 0.6), (1, 0.3), (2, 0.85), (0, 0.15), (1, 0.45)]
+    POST = [('zero', 0), ('frac', 1, 0.3), ('frac', 0, 0.7)]
+    i = 0
+    for fs in [1000.0, 195312.5]:
+        for ft in T0F:
+            for pk, fp in PRE:
+                for post in POST:
+                    for sizek in [5, 5.4]:
+                        pre = ('frac', pk, fp)
+                        fq = post[2] if post[0] == 'frac' else 0.0
+                        if not (_nontie(ft - fp) and _nontie(sizek + fq + fp)):
+                            continue
+                        for base in ([4, 7] if quick else [3, 4, 7, 8, 11]):
+                            i += 1
+                            t0k = base + pk + ft
+                            lo, n = _lo_n(fs, t0k, pre, post, sizek)
+                            a = 0 if i % 3 else 1           # at send #1 the start may already lie in the look-back
+                            B = 4
+                            if a == 1 and lo < 0:
+                                a = 0
+                            feeds = _feeds(chunks, {a: [[t0k, None, sizek]]})
+                            yield _case(KINDS[i % 4], fs, B, feeds, size=sizek, pre=pre, post=post)
+    # seeded random: several off-grid requests, per-request off-grid durations, removals
+    for it in range(250 if quick else 4000):
+        fs = rng.choice([1000.0, 195312.5])
+        nchunks = rng.randint(2, 7)
+        chunks = [rng.choice([1, 2, 3, 4, 5, 6, 8]) for _ in range(nchunks)]
+        ends = list(itertools.accumulate(chunks))
+        total = ends[-1]
+        B = rng.choice([0, 3, 5, 8])
+        pre = ('frac', rng.randint(0, 3), rng.choice([0.6, 0.3, 0.85, 0.15, 0.45, 0.72]))
+        post = rng.choice([('zero', 0), ('frac', rng.randint(0, 2), rng.choice([0.3, 0.7, 0.55, 0.12]))])
+        fq = post[2] if post[0] == 'frac' else 0.0
+        sizek = rng.choice([2, 3, 5, 7]) + rng.choice([0, 0.4, 0.27, -0.35])
+        if not _nontie(sizek + fq + pre[2]):
+            continue
+        reqs_at, rems_at = {}, {}
+        for qi in range(rng.randint(1, 5)):
+            ft = rng.choice(T0F + [0.33, -0.41, 0.0])
+            if not _nontie(ft - pre[2]):
+                continue
+            t0k = rng.randint(0, total) + pre[1] + ft
+            lo, n = _lo_n(fs, t0k, pre, post, sizek)
+            if lo < 0:
+                continue
+            cand, kept, T = [], [], 0
+            for a, m in enumerate(chunks):
+                kept.append((T, m))
+                if kept[0][0] <= lo:
+                    cand.append(a)
+                T += m
+                while kept and kept[0][0] + kept[0][1] < T - B:
+                    kept.pop(0)
+            if not cand:
+                continue
+            a = rng.choice(cand) if rng.random() < 0.5 else cand[-1]
+            key = 'k%d' % qi
+            reqs_at.setdefault(a, []).append([t0k, key, sizek])
+            if rng.random() < 0.25:
+                rems_at.setdefault(rng.randint(a, nchunks - 1), []).append([t0k, key])
+        yield _case(rng.choice(KINDS), fs, B, _feeds(chunks, reqs_at, rems_at), size=sizek, pre=pre, post=post,
+                    vals=rng.choice(['idx', 'mod']))
+
+
 def cases(tier, rng):
     yield from _fixed()
     yield from _single(tier)
     yield from _pairs(tier, rng)
     yield from _random(tier, rng)
+    yield from _offgrid(tier, rng)
 
 
 # replayed on every run while the finding is listed in known_findings.txt
